@@ -40,7 +40,7 @@ MCTries ==
 TrAddrs == {"a1", "a2", "a3"}
 TrRefs == {"r1", "r2", "r3", "r4"}
 TrLinks == {"l1", "l2", "l3", "l4"}
-TrKeys == {"k1", "k2"}
+TrKeys == {"k1", "k2", "k3"}   \* k3: an RSA key of another size (3072 bits)
 TrKeyType == [k \in TrKeys |-> IF k = "k1" THEN "ecdsa" ELSE "rsa"]
 TrVarKeys == {"r1^U", "r1^S", "r2^U", "a1:r1^K", "a3:r2^K"}
 ASSUME PrintT(ToJson([trmeta |-> [Addrs |-> TrAddrs, Refs |-> TrRefs, Links |-> TrLinks, Keys |-> TrKeys, VarKeys |-> TrVarKeys]]))
